@@ -29,14 +29,14 @@ REQUIRED = ['quota_textbook_hare', 'quota_textbook_hagenbach_bischoff', 'quota_t
             'quota_textbook_hagenbach_bischoff_ceil', 'quota_round_half_up', 'quota_textbook_hare_rounded',
             'quota_textbook_hagenbach_bischoff_rounded', 'quota_droop_pos', 'quota_droop_least',
             'qd_whole_quotas', 'wholeSel_get', 'qd_no_overaward', 'qd_policy_error', 'qd_policy_ignore',
-            'qd_policy_subtract_total', 'qd_subtract_step', 'qd_subtract_empty',
+            'qd_policy_subtract_total', 'qd_policy_honoured', 'qd_errors', 'qd_subtract_step', 'qd_subtract_empty',
             'lr_whole_then_remainders', 'lr_floor_plus_01', 'lr_extra_only_eligible', 'lr_largest_remainders',
-            'lr_tie_shape', 'lr_tie_seats', 'lr_total', 'lr_short', 'lr_no_remainder_seats', 'lr_policy_error', 'lr_policy_ignore',
-            'lr_policy_subtract', 'lr_total_exact', 'lr_total_hare', 'lr_total_hagenbach_bischoff',
+            'lr_tie_shape', 'lr_tie_seats', 'lr_total', 'lr_short', 'lr_no_remainder_seats', 'lr_policy_error',
+            'lr_policy_ignore', 'lr_policy_subtract', 'lr_total_exact', 'lr_total_hare', 'lr_total_hagenbach_bischoff',
             'lr_total_imperiali', 'hare_quota_rule', 'lr_plain_of_quota_gt', 'lr_plain_droop',
-            'qd_fuel_suffices', 'lr_fuel_suffices',
-            'qd_cap_partial', 'lr_cap_partial', 'qd_cap_witness', 'qd_cap_negative_witness', 'lr_cap_witness',
-            'qd_house_witness', 'qd_house_zero_division_witness', 'qd_policy_error_unnamed_witness']
+            'qd_cap', 'lr_cap', 'lr_cap_total', 'qd_cap_subtract',
+            'prefix_qd_cap_witness', 'prefix_qd_cap_negative_witness', 'prefix_lr_cap_witness',
+            'prefix_qd_house_witness', 'prefix_qd_policy_error_unnamed_witness']
 REQUIRED_COUNTERS = ['policy_error', 'policy_ignore', 'policy_subtract', 'subtract_tie', 'cap_binds', 'cap_with_prev',
                      'cap_remainder_only', 'remainder_tie', 'accept_equal_edge', 'overaward_imperiali',
                      'overaward_hagenbach_bischoff', 'whole_exceeds_house', 'prev_nonzero', 'prev_other_party',
@@ -645,13 +645,10 @@ NOT_VERIFIED = ['dict insertion order is the protocol order (CPython dict semant
                 'a Tie whose members are Tie objects is not representable in the model (answers Model:NestedTie; never observed)',
                 'int / Fraction arithmetic of CPython is exact rational arithmetic']
 EXHAUSTIVE = {'thorough': False}
-UNPROVED = ['VL.C02.qd_cap (caps respected by QuotaDistributor for ALL inputs: false of the current code, see qd_cap_witness / finding C02-a)',
-            'VL.C02.lr_cap (caps respected by LargestRemainder for ALL inputs: false, see lr_cap_witness / finding C02-b)',
-            'VL.C02.lr_cap_total (total = n under binding caps: false, finding C02-b)',
-            'VL.C02.qd_policy_honoured (policies honoured also when a party\'s whole quotas exceed the house: false, see qd_house_witness / finding C02-d)']
+UNPROVED = []
 TECHNIQUE = ('Lean 4 proofs about an executable model of QuotaDistributor / LargestRemainder (unbounded) + translated quota '
              'functions + differential correspondence with votelib')
-LEVEL_TEXT = ('QuotaDistributor.evaluate (incl. the cap-overshoot recursion and _subtract_overaward) and LargestRemainder.evaluate '
+LEVEL_TEXT = ('QuotaDistributor.evaluate (incl. _subtract_overaward) and LargestRemainder.evaluate '
               'are modelled line for line in Lean; the quota functions are regenerated from quota.py on every run. Proved for ALL '
               'inputs (no size bound): every named quota equals its textbook closed form; without a binding cap the whole-quota '
               'awards are max(floor(v/q)-prev,0) with the accept_equal edge; error / ignore / subtract are honoured exactly '
@@ -659,9 +656,13 @@ LEVEL_TEXT = ('QuotaDistributor.evaluate (incl. the cap-overshoot recursion and 
               'LargestRemainder = whole quotas + one seat per place of get_n_best over the exact remainders of the parties below '
               'their cap (at most one per party, larger remainders first, ties at the cut exactly the level set), total = n when '
               'the open seats do not outnumber the eligible parties - proved outright for Hare, Hagenbach-Bischoff, Imperiali; '
-              'Droop never over-awards; the Hare quota rule floor(share) <= seats <= ceil(share). Cap theorems are _partial (no '
-              'cap binds on the whole quotas); the failing shapes are proved as witnesses and listed as open findings.')
+              'Droop never over-awards; the Hare quota rule floor(share) <= seats <= ceil(share). Caps (after repair 9571110), with no '
+              'side condition: a party never exceeds its cap, sits exactly on it when its whole quotas reach it, every other '
+              'party keeps at least its whole quotas, and the total is still n when the open seats do not outnumber the parties '
+              'below their cap; the policies are honoured for every well-formed request. The repaired defects stay as theorems '
+              'about the pre-repair model VL.QDPre.')
 LEVEL_NOTE = ('Trusted: Lean kernel + propext/Classical.choice/Quot.sound; translate.py + Py.lean primitives for the quota functions; '
               'the hand-written model is tied to /repo by the differential correspondence (bounded by the generator: 1-6 parties, '
-              'n<=12, int/Fraction votes up to 3*10^30, prev_gains/max_seats) and the independent Fraction oracle. Open findings '
-              'C02-a/b/d (cap overshoot branch) and C02-e (constant quota + error) are reported as KNOWN-FINDING.')
+              'n<=12, int/Fraction votes up to 3*10^30, prev_gains/max_seats) and the independent Fraction oracle. Findings C02-a/b/d '
+              '(cap overshoot branch, fixed by 9571110), C02-e (constant quota + error, 24bad1e) and C02-c (6adacaa) are replayed '
+              'as fixed entries on every run.')
